@@ -1510,6 +1510,15 @@ impl<'a> Ev<'a> {
                 }
                 continue;
             }
+            if last == "default" && vs.is_empty() {
+                if let Some(sd) = self.ix.structs.get(&ty) {
+                    if sd.derives.iter().any(|d| d == "Default") {
+                        let fields = sd.fields.iter().map(|(n, t)| (n.clone(), self.default_val(t))).collect();
+                        r.push((s, Flow::Val(Val::Struct { name: ty.clone(), fields })));
+                        continue;
+                    }
+                }
+            }
             if last == "new" && vs.is_empty() && (ty == "Vec" || ty == "TokenStream") {
                 r.push((s, Flow::Val(Val::List(vec![]))));
                 continue;
@@ -1545,6 +1554,29 @@ impl<'a> Ev<'a> {
                 } else { None }
             }
             _ => None,
+        }
+    }
+    /// value of `<T as Default>::default()` for the field types the generator uses
+    fn default_val(&self, t: &syn::Type) -> Val {
+        let ty = Ty::from_syn(t);
+        match ty.name() {
+            Some("Option") => Val::none(),
+            Some("bool") => Val::Bool(false),
+            Some("Vec") => Val::List(vec![]),
+            Some("Flag") => Val::Struct { name: "Flag".into(), fields: vec![("span".into(), Val::none())] },
+            Some(n) => {
+                if let Some(f) = self.ix.get_fn(&format!("{n}::default")) {
+                    let outs = self.call_fn(St::new(), &f, None, vec![]);
+                    if let Some((_, Flow::Val(v))) = outs.into_iter().next() { return v; }
+                }
+                if let Some(sd) = self.ix.structs.get(n) {
+                    if sd.derives.iter().any(|d| d == "Default") {
+                        return Val::Struct { name: n.to_string(), fields: sd.fields.iter().map(|(fname, ft)| (fname.clone(), self.default_val(ft))).collect() };
+                    }
+                }
+                Val::opaque(format!("default {n}"), vec![])
+            }
+            None => Val::opaque("default", vec![]),
         }
     }
     fn recv_ty_name(&self, st: &St, v: &Val) -> Option<String> {
@@ -1608,6 +1640,7 @@ impl<'a> Ev<'a> {
         let rv = self.deref(&st, recv);
         let v = match (name, &rv) {
             ("value", Val::Sym { ty, path }) if ty.name() == Some("Flag") => Val::Atom(F::A(path.clone())),
+            ("value", Val::Struct { name: sn, fields }) if sn == "Flag" => Val::Bool(fields.iter().any(|(n, v)| n == "span" && matches!(v, Val::Enum { var, .. } if var == "Some"))),
             ("is_some", Val::Sym { ty, path }) if ty.name() == Some("Option") => Val::Atom(F::A(path.clone())),
             ("is_none", Val::Sym { ty, path }) if ty.name() == Some("Option") => Val::Atom(F::Not(Box::new(F::A(path.clone())))),
             ("is_some", Val::Enum { var, .. }) => Val::Bool(var == "Some"),
